@@ -163,9 +163,13 @@ fn evaluate_inner(plan: &Plan, out: &RunOut, obs: &mut Vec<Violation>) -> Vec<Vi
         vs.push(v(
             p,
             &format!("{pre}.hang"),
-            format!("virtual time {} s, neither progress nor completion for >= 75 s (150 s in the vanish family) of virtual time, pending tasks={} : {}", out.end_ns / 1_000_000_000, out.app.pending, pending.join(" | ")),
+            format!("virtual time {} s, neither progress nor completion for >= 50 s (150 s in the vanish family) of virtual time, pending tasks={} : {}", out.end_ns / 1_000_000_000, out.app.pending, pending.join(" | ")),
             "",
         ));
+    }
+
+    if out.app.over_budget && !out.capped {
+        obs.push(v(p, "harness.datagram_budget", format!("run stopped by the datagram/byte budget ({} datagrams / {} MB) with tasks still progressing (virtual time {} ms)", link::DATAGRAM_BUDGET, link::BYTE_BUDGET / 1_000_000, out.end_ns / 1_000_000), ""));
     }
 
     // ---- errors without any cause
